@@ -42,9 +42,9 @@ ATOMS = [
     "```e\u0301\u2126", "  ``` \u212b",
     "a\x0cb\u2028c\x85d\x0be\x1cf\u2029g",      # every non-LF line boundary str.splitlines() knows      # shorter backtick run followed by NFC-unstable text (fence-shaped content line)
 ]
-TAGS = [None, "py", "a b"]
+TAGS = [None, "py", "a b", "Py"]
 PLACEMENTS = ["top", "block1", "block2", "section", "section_nested", "bare_first", "bare_middle", "bare_after_nested", "two_values", "two_bare",
-              "after_nfd", "frontmatter"]
+              "after_nfd", "frontmatter", "schema_block", "legacy259", "legacy259_nested", "last_no_end"]
 
 
 NFC_P = "\u00e9 \u00f4 \u00fc \u00e5 \u00e9 \u00f4 \u00fc \u00e5 \u00e9 \u00f4"
@@ -89,6 +89,15 @@ def build(lines, fence_len, tag, placement):
         # NFC-unstable text OUTSIDE the zone, before it: the reader's normalised buffer is shorter than the source text
         # (the model holds the NFC form - that is what the reader returns for text outside zones; check() spells it NFD)
         body = [A("P", S(NFC_P, "quoted")), A("K", z), A("Q", S("q"))]
+    elif placement == "schema_block":
+        body = [B("ZS", [A("K", z), A("R", S("r"))]), A("Q", S("q"))]
+    elif placement == "legacy259":
+        # Issue #259 form: the fence stands at the block header's OWN column directly after `KEY:`; what follows at that column is a sibling
+        body = [B("B1", [Z(z)]), A("R", S("r")), A("Q", S("q"))]
+    elif placement == "legacy259_nested":
+        body = [B("B0", [B("B1", [Z(z)]), A("R", S("r"))]), A("Q", S("q"))]
+    elif placement == "last_no_end":
+        return Doc([A("P", S("p")), A("K", z)], name="D", meta=meta, separator=True)
     elif placement == "frontmatter":
         return Doc([A("P", S("p")), A("K", z), A("Q", S("q"))], name="D", meta=meta, separator=True, frontmatter="name: x\ndescription: y")
     else:
@@ -130,11 +139,21 @@ def _tools():
         from octave_mcp.mcp.write import WriteTool
         _T.update(v=ValidateTool(), w=WriteTool(), e=EjectTool(), seal=seal_document, loop=asyncio.new_event_loop(), cli=cli,
                   runner=CliRunner(), dir=tempfile.mkdtemp(prefix="vt-c05-", dir="/dev/shm" if os.path.isdir("/dev/shm") else None))
+        # a generated schema whose field K carries LANG[...] (schema validation looks at the zone's info tag): found by name via cwd
+        os.makedirs(os.path.join(_T["dir"], "specs", "schemas"))
+        with open(os.path.join(_T["dir"], "specs", "schemas", "zs.oct.md"), "w", encoding="utf-8") as f:
+            f.write('===ZS===\nMETA:\n  TYPE::PROTOCOL_DEFINITION\n  VERSION::"1.0"\n---\nPOLICY:\n  VERSION::"1.0"\n  UNKNOWN_FIELDS::IGNORE\nFIELDS:\n'
+                    '  K::["x"∧LANG[py]]\n  R::["r"∧REQ]\n===END===\n')
+        os.chdir(_T["dir"])
     return _T
 
 
 def _cleanup():
     if _T.get("dir"):
+        try:
+            os.chdir("/")
+        except OSError:
+            pass
         shutil.rmtree(_T["dir"], ignore_errors=True)
     _T.clear()
 
@@ -162,6 +181,19 @@ def check(case) -> Res:
     d = build(lines, fence_len, tag, placement)
     exp = norm(dm.dcontent(d))
     x = render(d, {}).text
+    if placement == "last_no_end":
+        from ..render import sites as _sites
+        x = render(d, {sid: 1 for (sid, k, n) in _sites(d) if k == "end_marker"}).text       # ===END=== omitted: the closing fence is the last line
+    if placement.startswith("legacy259"):
+        # dedent the two fence lines of the (first) zone by one level: content lines are verbatim anyway
+        ind = "  " if placement == "legacy259" else "    "
+        fl = ind + "`" * fence_len
+        parts = x.split("\n")
+        hits = [i for i, ln in enumerate(parts) if ln.startswith(fl) and not ln.startswith(fl + "`")]
+        if len(hits) >= 2:
+            for i in (hits[0], hits[-1]):
+                parts[i] = parts[i][2:]
+            x = "\n".join(parts)
     if placement == "after_nfd":
         import unicodedata
         x = x.replace(NFC_P, unicodedata.normalize("NFD", NFC_P), 1)
@@ -232,7 +264,8 @@ def check(case) -> Res:
         fail("emit.reparse", f"refused:{getattr(e, 'error_code', '?')}", f"{c1!r} -> {e}")
     steps += 3
     # d validate
-    for name, kw in (("validate", dict(schema="META")), ("validate.fix", dict(schema="META", fix=True)),
+    sch = "ZS" if placement == "schema_block" else "META"
+    for name, kw in (("validate", dict(schema=sch)), ("validate.fix", dict(schema=sch, fix=True)),
                      ("validate.noschema", dict(schema="NO_SUCH"))):
         r = loop.run_until_complete(t["v"].execute(content=x, **kw))
         steps += 1
@@ -262,7 +295,7 @@ def check(case) -> Res:
             if got != exp_override:
                 fail(pipe, "ast:" + ";".join(sorted(set(diff(exp_override, got)))), json.dumps(got, ensure_ascii=False))
 
-    for name, kw in (("write.content", {}), ("write.lenient", dict(lenient=True))):
+    for name, kw in (("write.schema", dict(schema=sch, lenient=True)), ("write.content", {}), ("write.lenient", dict(lenient=True))):
         if os.path.exists(path):
             os.unlink(path)
         r = loop.run_until_complete(t["w"].execute(target_path=path, content=x, **kw))
@@ -279,9 +312,13 @@ def check(case) -> Res:
             fail("write.changes", "refused:" + str((r.get("errors") or [{}])[0].get("code")), r.get("errors"))
         else:
             exp2 = json.loads(json.dumps(exp))
+            hit = False
             for n in exp2["body"]:
                 if n[0] == "A" and n[1] == "Q":
                     n[2] = ["str", "changed"]
+                    hit = True
+            if not hit:
+                exp2["body"].append(["A", "Q", ["str", "changed"], [], None])      # a fresh key is appended
             file_check("write.changes", exp2)
             r = loop.run_until_complete(t["w"].execute(target_path=path))
             steps += 1
